@@ -29,8 +29,26 @@ pub enum Step {
     /// one batch whose payload is `limit + delta`: limit 0 = sst::MAX_BATCH_LEN, 1 =
     /// log::MAX_BATCH_SIZE, 2 = 1 MiB (the largest payload a WriteBatch accepts)
     Big { limit: u8, delta: i16, ts: u64, fill: u8 },
-    /// `count` batches of one tiny entry each
-    Tiny { count: u16, tombstones: bool },
+    /// `count` batches of one tiny entry each; `direct`: every second one goes through
+    /// `LogBuilder::put` / `del` instead of a one-entry `WriteBatch`
+    Tiny {
+        count: u16,
+        tombstones: bool,
+        #[serde(default)]
+        direct: bool,
+    },
+    /// one batch built through `WriteBatch::insert` / `merge` (see `Via`)
+    Built { shapes: Vec<EntryShape>, via: Via },
+    /// one entry through `LogBuilder::put` (or `del` for a tombstone shape)
+    Single(EntryShape),
+    /// a batch filled to `room` bytes below 1 MiB; merging a batch of more than `room` bytes into
+    /// it must be refused (table-full) and leave it unchanged, merging one of exactly `room` bytes
+    /// must succeed; the result is appended
+    MergeOver { room: u8, ts: u64 },
+    /// `LogBuilder::flush`
+    Flush,
+    /// `LogBuilder<File>::fsync` (a flush for in-memory logs)
+    Fsync,
     /// an empty batch: must be refused with the empty-batch error and leave the log unchanged
     Empty,
     /// a batch filled to `room` bytes below 1 MiB, then one entry that does not fit any more: the
@@ -56,13 +74,17 @@ fn probe_step(small_only: bool) -> BoxedStrategy<Step> {
     let fit = (delta, prop::collection::vec(small_shape(), 0..3), ts_strategy(), 0u8..4)
         .prop_map(|(delta, lead, ts, fill)| Step::Fit { delta, lead, ts, fill });
     let batch = prop::collection::vec(if small_only { small_shape().boxed() } else { any_shape().boxed() }, 1..6).prop_map(Step::Batch);
-    let tiny = (1u16..60, any::<bool>()).prop_map(|(count, tombstones)| Step::Tiny { count, tombstones });
+    let tiny = (1u16..60, any::<bool>(), any::<bool>()).prop_map(|(count, tombstones, direct)| Step::Tiny { count, tombstones, direct });
+    let built = (prop::collection::vec(if small_only { small_shape().boxed() } else { any_shape().boxed() }, 1..6), via_strategy()).prop_map(|(shapes, via)| Step::Built { shapes, via });
+    let single = if small_only { small_shape().prop_map(Step::Single).boxed() } else { any_shape().prop_map(Step::Single).boxed() };
+    let sync = prop_oneof![Just(Step::Flush), Just(Step::Fsync)];
     if small_only {
-        prop_oneof![5 => fit, 5 => batch, 1 => tiny, 1 => Just(Step::Empty)].boxed()
+        prop_oneof![10 => fit, 7 => batch, 3 => built, 2 => single, 2 => tiny, 2 => Just(Step::Empty), 1 => sync].boxed()
     } else {
         let big = (0u8..3, -2i16..=2, ts_strategy(), 0u8..4).prop_map(|(limit, delta, ts, fill)| Step::Big { limit, delta, ts, fill });
         let over = (0u8..40, ts_strategy()).prop_map(|(room, ts)| Step::Overfull { room, ts });
-        prop_oneof![20 => fit, 20 => batch, 4 => tiny, 4 => big, 2 => Just(Step::Empty), 1 => over].boxed()
+        let merge_over = (0u8..40, ts_strategy()).prop_map(|(room, ts)| Step::MergeOver { room, ts });
+        prop_oneof![20 => fit, 14 => batch, 6 => built, 4 => single, 4 => tiny, 4 => big, 2 => Just(Step::Empty), 1 => over, 1 => merge_over, 2 => sync].boxed()
     }
 }
 
@@ -95,6 +117,28 @@ pub struct Built {
     pub batches: Vec<Batch>,
     pub setsum: Setsum,
     pub notes: Vec<String>,
+    /// an append refused by the roll-over size had already padded the block: the layout rules are
+    /// not applied to what follows
+    pub relaxed_layout: bool,
+    /// batches that were refused by the roll-over size
+    pub refused: Vec<Vec<Entry>>,
+}
+
+/// What `LogBuilder<File>` offers beyond `LogBuilder<W>`.
+pub trait MaybeFsync {
+    fn fsync_or_flush(&mut self) -> Result<(), sst::SError>;
+}
+
+impl MaybeFsync for LogBuilder<std::fs::File> {
+    fn fsync_or_flush(&mut self) -> Result<(), sst::SError> {
+        self.fsync()
+    }
+}
+
+impl MaybeFsync for LogBuilder<&mut Vec<u8>> {
+    fn fsync_or_flush(&mut self) -> Result<(), sst::SError> {
+        self.flush()
+    }
 }
 
 struct B<'a, W: sst::log::Write> {
@@ -103,9 +147,15 @@ struct B<'a, W: sst::log::Write> {
     seed: u64,
     o: &'a mut Outcome,
     notes: Vec<String>,
+    rollover: Option<u64>,
+    relaxed_layout: bool,
+    refused: Vec<Vec<Entry>>,
 }
 
-impl<W: sst::log::Write> B<'_, W> {
+impl<W: sst::log::Write> B<'_, W>
+where
+    LogBuilder<W>: MaybeFsync,
+{
     fn off(&self) -> u64 {
         self.log.approximate_size() as u64
     }
@@ -137,18 +187,70 @@ impl<W: sst::log::Write> B<'_, W> {
     }
 
     fn append_batch(&mut self, wb: &WriteBatch, entries: Vec<Entry>) -> bool {
+        self.append_call(wb.approximate_size(), entries, |log| log.append(wb))
+    }
+
+    /// One entry through `LogBuilder::put` / `del`.
+    fn append_single(&mut self, e: Entry) -> bool {
+        let p = match make_batch(std::slice::from_ref(&e)) {
+            Ok(wb) => wb.approximate_size(),
+            Err(err) => {
+                self.o.fail("batch-entry-refused", format!("a write batch refused one entry within the limits: {err:?}"));
+                return false;
+            }
+        };
+        self.notes.push(if e.val.is_some() { "call:LogBuilder::put".into() } else { "call:LogBuilder::del".into() });
+        let e2 = e.clone();
+        self.append_call(p, vec![e], move |log| match &e2.val {
+            Some(v) => log.put(&e2.key, e2.ts, v),
+            None => log.del(&e2.key, e2.ts),
+        })
+    }
+
+    /// One call that appends a batch of `p` payload bytes.  With a roll-over size the call must be
+    /// refused (table-full) when the frame would end beyond it, and only then.
+    fn append_call(&mut self, p: usize, entries: Vec<Entry>, call: impl FnOnce(&mut LogBuilder<W>) -> Result<(), sst::SError>) -> bool {
         let before = self.off();
-        if let Err(e) = self.log.append(wb) {
-            self.o.fail("append-refused", format!("append of batch #{} (payload {} bytes) at offset {before} failed: {e:?}", self.batches.len(), wb.approximate_size()));
-            return false;
-        }
+        let frame = (header_len(p) + p) as u64;
+        let (pad, _) = expected_placement(before, p as u64);
+        let r = call(&mut self.log);
         let end = self.off();
-        if end < before + wb.approximate_size() as u64 {
-            self.o.fail("append-offset", format!("append of {} payload bytes moved the builder's offset from {before} to {end} only", wb.approximate_size()));
-            return false;
+        match r {
+            Err(e) => {
+                let beyond = self.rollover.map(|r| before + pad + frame > r).unwrap_or(false);
+                if !(beyond && sst::is_table_full(&e)) {
+                    self.o.fail("append-refused", format!("append of batch #{} (payload {p} bytes) at offset {before} failed: {e:?}", self.batches.len()));
+                    return false;
+                }
+                if end != before {
+                    // the block had been padded before the size was checked again
+                    if end != before + pad {
+                        self.o.fail("refused-append-moved-offset", format!("an append refused by the roll-over size moved the offset from {before} to {end} (the padding up to the boundary would be {pad} bytes)"));
+                        return false;
+                    }
+                    self.relaxed_layout = true;
+                    self.notes.push("rollover:refused-after-padding".into());
+                } else {
+                    self.notes.push("rollover:refused".into());
+                }
+                self.refused.push(entries);
+                true
+            }
+            Ok(()) => {
+                if let Some(r) = self.rollover {
+                    if before + frame > r {
+                        self.o.fail("rollover-size-exceeded", format!("append of {p} payload bytes (a frame of {frame} bytes) at offset {before} was accepted although the log is to roll over at {r} bytes"));
+                        return false;
+                    }
+                }
+                if end < before + p as u64 {
+                    self.o.fail("append-offset", format!("append of {p} payload bytes moved the builder's offset from {before} to {end} only"));
+                    return false;
+                }
+                self.batches.push(Batch { entries, end });
+                true
+            }
         }
-        self.batches.push(Batch { entries, end });
-        true
     }
 
     /// A batch whose whole frame is exactly `frame` bytes (or as close as the encoding permits).
@@ -244,14 +346,125 @@ impl<W: sst::log::Write> B<'_, W> {
                     None => true,
                 }
             }
-            Step::Tiny { count, tombstones } => {
+            Step::Tiny { count, tombstones, direct } => {
                 for i in 0..*count {
                     let s = EntryShape { klen: (i % 3) as u8 as u16, ts: i as u64, vlen: if *tombstones { None } else { Some((i % 5) as u32) }, fill: 0 };
-                    if !self.append_shapes(&[s], None) {
+                    let ok = if *direct && i % 2 == 1 {
+                        let e = make_entry(self.tag(0), &s);
+                        self.append_single(e)
+                    } else {
+                        self.append_shapes(&[s], None)
+                    };
+                    if !ok {
                         return false;
                     }
                 }
                 true
+            }
+            Step::Built { shapes, via } => {
+                let entries = self.entries_of(shapes);
+                let wb = match make_batch_via(&entries, *via) {
+                    Ok(wb) => wb,
+                    Err(e) => {
+                        self.o.fail("batch-entry-refused", format!("a write batch of {} entries built via {via:?} refused an entry within the limits: {e:?}", entries.len()));
+                        return false;
+                    }
+                };
+                if wb.approximate_size() != shapes_size(shapes) {
+                    self.o.fail("batch-size-differs", format!("a batch built via {via:?} holds {} bytes, the same entries through put / del hold {}", wb.approximate_size(), shapes_size(shapes)));
+                    return false;
+                }
+                self.notes.push(format!("batch-via:{via:?}"));
+                self.append_batch(&wb, entries)
+            }
+            Step::Single(shape) => {
+                let e = make_entry(self.tag(0), shape);
+                self.append_single(e)
+            }
+            Step::Flush => {
+                self.notes.push("call:flush".into());
+                match self.log.flush() {
+                    Ok(()) => true,
+                    Err(e) => {
+                        self.o.fail("flush-failed", format!("LogBuilder::flush failed: {e:?}"));
+                        false
+                    }
+                }
+            }
+            Step::Fsync => {
+                self.notes.push("call:fsync-or-flush".into());
+                match self.log.fsync_or_flush() {
+                    Ok(()) => true,
+                    Err(e) => {
+                        self.o.fail("fsync-failed", format!("LogBuilder::fsync failed: {e:?}"));
+                        false
+                    }
+                }
+            }
+            Step::MergeOver { room, ts } => {
+                let p = BLOCK as usize - *room as usize;
+                let Some(shapes) = plan_exact(p, &[], *ts, 0) else { return true };
+                let mut entries = self.entries_of(&shapes);
+                let mut wb = match make_batch(&entries) {
+                    Ok(wb) => wb,
+                    Err(e) => {
+                        self.o.fail("batch-entry-refused", format!("a write batch refused an entry that keeps the payload at {p} <= 1 MiB: {e:?}"));
+                        return false;
+                    }
+                };
+                let sz = wb.approximate_size();
+                let room_left = BLOCK as usize - sz;
+                // one byte too many: must be refused and change nothing
+                let min = entry_size(0, *ts, None);
+                let over_target = (room_left + 1).max(min);
+                let over_entry = (over_target..over_target + 4).find_map(|t| plan_exact(t, &[], *ts, 0).filter(|s| shapes_size(s) > room_left));
+                if let Some(sh) = over_entry {
+                    let es: Vec<Entry> = sh.iter().enumerate().map(|(i, s)| make_entry(self.tag(8000 + i), s)).collect();
+                    let other = make_batch(&es).expect("small batch");
+                    match wb.merge(&other) {
+                        Ok(()) => {
+                            self.o.fail("merge-over-limit-accepted", format!("merging {} bytes into a batch of {sz} bytes succeeded; the result has {} bytes, beyond the 1 MiB limit", other.approximate_size(), wb.approximate_size()));
+                            return false;
+                        }
+                        Err(e) => {
+                            if !sst::is_table_full(&e) {
+                                self.o.fail("merge-over-limit-wrong-error", format!("a merge that overflows the batch was refused with {e:?} instead of table-full"));
+                                return false;
+                            }
+                            if wb.approximate_size() != sz {
+                                self.o.fail("merge-over-limit-changed-batch", format!("a refused merge changed the batch's size from {sz} to {}", wb.approximate_size()));
+                                return false;
+                            }
+                            let polluted = {
+                                let mut tmp: Vec<u8> = Vec::new();
+                                let mut l = LogBuilder::from_write(LogOptions::default(), &mut tmp).expect("from_write");
+                                match l.append(&wb).and_then(|_| l.seal()) {
+                                    Ok((s, _)) => s != setsum_of(&entries),
+                                    Err(_) => false,
+                                }
+                            };
+                            if polluted {
+                                self.o.fail("refused-merge-still-in-setsum", format!("a merge refused with table-full (batch at {sz} of 1048576 bytes, other batch {} bytes) left the batch's bytes unchanged but changed its setsum", other.approximate_size()));
+                                return false;
+                            }
+                            self.notes.push("merge:over-limit-refused".into());
+                        }
+                    }
+                }
+                // exactly the room that is left: must be accepted
+                if room_left >= min {
+                    if let Some(sh) = plan_exact(room_left, &[], *ts, 0).filter(|s| shapes_size(s) == room_left) {
+                        let es: Vec<Entry> = sh.iter().enumerate().map(|(i, s)| make_entry(self.tag(9000 + i), s)).collect();
+                        let other = make_batch(&es).expect("small batch");
+                        if let Err(e) = wb.merge(&other) {
+                            self.o.fail("merge-within-limit-refused", format!("merging {} bytes into a batch of {sz} bytes (exactly 1 MiB together) was refused: {e:?}", other.approximate_size()));
+                            return false;
+                        }
+                        entries.extend(es);
+                        self.notes.push("merge:to-exactly-1MiB".into());
+                    }
+                }
+                self.append_batch(&wb, entries)
             }
             Step::Empty => {
                 let before = self.off();
@@ -335,16 +548,27 @@ impl<W: sst::log::Write> B<'_, W> {
 }
 
 /// Run the steps against a builder; `None` when an oracle has already failed.
-pub fn build<W: sst::log::Write>(log: LogBuilder<W>, steps: &[Step], seed: u64, o: &mut Outcome) -> Option<(Built, W)> {
-    let mut b = B { log, batches: vec![], seed, o, notes: vec![] };
+pub fn build<W: sst::log::Write>(log: LogBuilder<W>, steps: &[Step], seed: u64, o: &mut Outcome) -> Option<(Built, W)>
+where
+    LogBuilder<W>: MaybeFsync,
+{
+    build_with(log, steps, seed, None, o)
+}
+
+/// The same with a roll-over size (the one the builder's options carry).
+pub fn build_with<W: sst::log::Write>(log: LogBuilder<W>, steps: &[Step], seed: u64, rollover: Option<u64>, o: &mut Outcome) -> Option<(Built, W)>
+where
+    LogBuilder<W>: MaybeFsync,
+{
+    let mut b = B { log, batches: vec![], seed, o, notes: vec![], rollover, relaxed_layout: false, refused: vec![] };
     for s in steps {
         if !b.step(s) {
             return None;
         }
     }
-    let B { log, batches, o, notes, .. } = b;
+    let B { log, batches, o, notes, relaxed_layout, refused, .. } = b;
     match log.seal() {
-        Ok((setsum, w)) => Some((Built { batches, setsum, notes }, w)),
+        Ok((setsum, w)) => Some((Built { batches, setsum, notes, relaxed_layout, refused }, w)),
         Err(e) => {
             o.fail("seal-failed", format!("seal failed: {e:?}"));
             None
@@ -362,7 +586,11 @@ pub enum End {
 /// Drain a log image, comparing with the expected entries on the fly.  Returns the number of
 /// entries that matched and how the iteration ended; `Err` describes the first wrong entry.
 pub fn read_compare(bytes: &[u8], expect: &mut dyn Iterator<Item = &Entry>) -> Result<(usize, End), String> {
-    let mut it = match LogIterator::from_reader(LogOptions::default(), Cursor::new(bytes)) {
+    read_compare_with(&LogOptions::default(), bytes, expect)
+}
+
+pub fn read_compare_with(opts: &LogOptions, bytes: &[u8], expect: &mut dyn Iterator<Item = &Entry>) -> Result<(usize, End), String> {
+    let mut it = match LogIterator::from_reader(opts.clone(), Cursor::new(bytes)) {
         Ok(it) => it,
         Err(e) => return Ok((0, End::Error(format!("{e:?}")))),
     };
@@ -456,10 +684,17 @@ pub fn bucket(n: u64) -> &'static str {
 
 /// Check the file image against the appended batches: layout, offsets, entries.
 /// Returns the groups when everything holds.
-pub fn check_whole(bytes: &[u8], built: &Built, o: &mut Outcome) -> Option<Vec<Group>> {
+/// Suspected finding C12-C: `LogBuilder::append` adds the batch's setsum to the log's before
+/// `_append` can refuse the batch (roll-over size / table full), so `seal()` returns a setsum that
+/// includes batches that are not in the log.  Trigger: an append was refused with table-full.  The
+/// seal setsum must then be the sum of the log's entries or that sum plus exactly the refused
+/// batches (not judged further unless strict).
+pub const C12_C: &str = "C12-C";
+
+pub fn check_whole(opts: &LogOptions, bytes: &[u8], built: &Built, strict: bool, o: &mut Outcome) -> Option<Vec<Group>> {
     let total: usize = built.batches.iter().map(|b| b.entries.len()).sum();
     let mut exp = built.batches.iter().flat_map(|b| b.entries.iter());
-    match read_compare(bytes, &mut exp) {
+    match read_compare_with(opts, bytes, &mut exp) {
         Err(m) => {
             o.fail("roundtrip-wrong-entry", m);
             return None;
@@ -480,8 +715,44 @@ pub fn check_whole(bytes: &[u8], built: &Built, o: &mut Outcome) -> Option<Vec<G
         want += setsum_of(&b.entries);
     }
     if want != built.setsum {
-        o.fail("seal-setsum", format!("seal returned setsum {} but the appended entries sum to {}", built.setsum.hexdigest(), want.hexdigest()));
-        return None;
+        let mut with_refused = want;
+        for r in built.refused.iter() {
+            with_refused += setsum_of(r);
+        }
+        if !built.refused.is_empty() && with_refused == built.setsum && !strict {
+            o.excluded.push(C12_C.to_string());
+            o.label("rollover:refused-append-in-seal-setsum(not-judged,C12-C)");
+        } else if !built.refused.is_empty() && with_refused == built.setsum {
+            o.fail(
+                "refused-append-still-in-setsum",
+                format!(
+                    "seal returned setsum {}; the {} batches in the log sum to {}; the difference is exactly the {} batch(es) whose append was refused by the roll-over size",
+                    built.setsum.hexdigest(),
+                    built.batches.len(),
+                    want.hexdigest(),
+                    built.refused.len()
+                ),
+            );
+            return None;
+        } else {
+            o.fail("seal-setsum", format!("seal returned setsum {} but the appended entries sum to {}", built.setsum.hexdigest(), want.hexdigest()));
+            return None;
+        }
+    }
+    if built.relaxed_layout {
+        // padding written by a refused append: frames must still parse (the file may end with padding)
+        let (frames, stop) = parse_frames_lenient(bytes);
+        if let Some((at, e)) = stop.filter(|(_, e)| e != "file ends with padding") {
+            o.fail("frame-layout", format!("the log reads back correctly but its frames do not parse at byte {at}: {e}"));
+            return None;
+        }
+        return match group_frames(&frames) {
+            Ok(g) => Some(g),
+            Err(e) => {
+                o.fail("frame-layout", format!("the log reads back correctly but {e}"));
+                None
+            }
+        };
     }
     let end = built.batches.last().map(|b| b.end).unwrap_or(0);
     if end != bytes.len() as u64 {
@@ -506,6 +777,22 @@ pub fn check_whole(bytes: &[u8], built: &Built, o: &mut Outcome) -> Option<Vec<G
     Some(groups)
 }
 
+/// A roll-over size for a log of the given steps: mostly near a block boundary that the steps reach.
+fn rollover_strategy() -> impl Strategy<Value = Option<u32>> {
+    prop_oneof![
+        23 => Just(None),
+        2 => (1u32..4, -60i32..60).prop_map(|(b, d)| Some((b as i64 * BLOCK as i64 + d as i64) as u32)),
+        1 => (100u32..70_000).prop_map(Some),
+    ]
+}
+
+fn seq_opts() -> impl Strategy<Value = OptShape> {
+    (opt_shape(), rollover_strategy()).prop_map(|(mut o, r)| {
+        o.rollover_size = r;
+        o
+    })
+}
+
 //////////////////////////////////////////// part 1: round trip ////////////////////////////////////
 
 #[derive(Clone, Debug, Serialize, Deserialize)]
@@ -514,6 +801,8 @@ pub struct SeqCase {
     pub seed: u32,
     /// write through `LogBuilder<File>` and read with the path-based functions as well
     pub via_file: bool,
+    #[serde(default)]
+    pub opts: OptShape,
 }
 
 pub struct RoundTrip;
@@ -531,11 +820,12 @@ impl Property for RoundTrip {
     }
     fn strategy(&self, ctx: &Ctx) -> BoxedStrategy<SeqCase> {
         let rounds = ctx.tier.pick(3, 5);
-        (steps_strategy(rounds, false), any::<u32>(), prop::bool::weighted(0.25)).prop_map(|(steps, seed, via_file)| SeqCase { steps, seed, via_file }).boxed()
+        (steps_strategy(rounds, false), any::<u32>(), prop::bool::weighted(0.25), seq_opts()).prop_map(|(steps, seed, via_file, opts)| SeqCase { steps, seed, via_file, opts }).boxed()
     }
     fn run(&self, ctx: &Ctx, c: &SeqCase) -> Outcome {
         let mut o = Outcome::pass();
-        let opts = LogOptions::default();
+        let opts = c.opts.build();
+        let rollover = c.opts.rollover_size.map(|r| r as u64);
         let (built, bytes, path) = if c.via_file {
             let dir = ctx.fresh_dir("seq");
             let path = dir.join("log");
@@ -547,26 +837,38 @@ impl Property for RoundTrip {
                     return o;
                 }
             };
-            let Some((built, file)) = build(log, &c.steps, c.seed as u64, &mut o) else { return o };
+            let Some((built, file)) = build_with(log, &c.steps, c.seed as u64, rollover, &mut o) else {
+                let _ = std::fs::remove_dir_all(dir);
+                return o;
+            };
             drop(file);
             let bytes = std::fs::read(&path).unwrap_or_default();
             (built, bytes, Some((dir, path)))
         } else {
             let mut buf: Vec<u8> = Vec::new();
             let log = LogBuilder::from_write(opts.clone(), &mut buf).expect("from_write");
-            let Some((built, _)) = build(log, &c.steps, c.seed as u64, &mut o) else { return o };
+            let Some((built, _)) = build_with(log, &c.steps, c.seed as u64, rollover, &mut o) else { return o };
             (built, buf, None)
         };
-        for n in built.notes.iter() {
+        let notes: std::collections::BTreeSet<&String> = built.notes.iter().collect();
+        for n in notes {
             o.label(n.clone());
         }
-        let groups = check_whole(&bytes, &built, &mut o);
+        c.opts.labels(&mut o);
+        if rollover.is_some() {
+            o.label("opts:rollover-size-set");
+        }
+        let groups = check_whole(&opts, &bytes, &built, ctx.strict, &mut o);
         if let Some((dir, path)) = path {
             if !o.failed() {
                 o.label("via-file");
+                let mut want = Setsum::default();
+                for b in built.batches.iter() {
+                    want += setsum_of(&b.entries);
+                }
                 match sst::log::log_to_setsum(opts.clone(), &path) {
-                    Ok(s) if s == built.setsum => {}
-                    Ok(s) => o.fail("log-to-setsum", format!("log_to_setsum gives {} for a log whose entries sum to {}", s.hexdigest(), built.setsum.hexdigest())),
+                    Ok(s) if s == want => {}
+                    Ok(s) => o.fail("log-to-setsum", format!("log_to_setsum gives {} for a log whose entries sum to {}", s.hexdigest(), want.hexdigest())),
                     Err(e) => o.fail("log-to-setsum", format!("log_to_setsum fails on an intact log: {e:?}")),
                 }
                 match sst::log::truncate_final_partial_frame(opts.clone(), &path) {
@@ -593,6 +895,8 @@ pub struct CutCase {
     pub seed: u32,
     /// sampled cut positions (selectors over the file length) in addition to the enumerated ones
     pub cuts: Vec<u16>,
+    #[serde(default)]
+    pub opts: OptShape,
 }
 
 pub struct Truncation;
@@ -670,15 +974,16 @@ impl Property for Truncation {
     }
     fn strategy(&self, ctx: &Ctx) -> BoxedStrategy<CutCase> {
         let rounds = ctx.tier.pick(1, 2);
-        (steps_strategy(rounds, true), any::<u32>(), prop::collection::vec(any::<u16>(), 0..12)).prop_map(|(steps, seed, cuts)| CutCase { steps, seed, cuts }).boxed()
+        (steps_strategy(rounds, true), any::<u32>(), prop::collection::vec(any::<u16>(), 0..12), opt_shape()).prop_map(|(steps, seed, cuts, opts)| CutCase { steps, seed, cuts, opts }).boxed()
     }
     fn run(&self, ctx: &Ctx, c: &CutCase) -> Outcome {
         let mut o = Outcome::pass();
-        let opts = LogOptions::default();
+        let opts = c.opts.build();
+        c.opts.labels(&mut o);
         let mut bytes: Vec<u8> = Vec::new();
         let log = LogBuilder::from_write(opts.clone(), &mut bytes).expect("from_write");
         let Some((built, _)) = build(log, &c.steps, c.seed as u64, &mut o) else { return o };
-        let Some(groups) = check_whole(&bytes, &built, &mut o) else { return o };
+        let Some(groups) = check_whole(&opts, &bytes, &built, ctx.strict, &mut o) else { return o };
         let frames = parse_frames(&bytes).unwrap_or_default();
         let splits = layout_labels(&groups, &mut o);
         let len = bytes.len() as u64;
@@ -694,7 +999,7 @@ impl Property for Truncation {
             let k = ends.partition_point(|e| *e <= cut);
             let want: usize = built.batches[..k].iter().map(|b| b.entries.len()).sum();
             let mut exp = built.batches.iter().flat_map(|b| b.entries.iter());
-            let r = vcore::guard(|| read_compare(&bytes[..cut as usize], &mut exp));
+            let r = vcore::guard(|| read_compare_with(&opts, &bytes[..cut as usize], &mut exp));
             let place = || {
                 let g = groups.iter().find(|g| g.start <= cut && cut < g.end);
                 match g {
@@ -776,7 +1081,7 @@ impl Property for Truncation {
                         } else {
                             let mut exp = built.batches.iter().flat_map(|b| b.entries.iter());
                             let want: usize = built.batches[..gi].iter().map(|b| b.entries.len()).sum();
-                            match read_compare(&bytes[..off as usize], &mut exp) {
+                            match read_compare_with(&opts, &bytes[..off as usize], &mut exp) {
                                 Ok((n, End::Clean)) if n == want => o.label("tfpf:names-end-of-last-complete-batch"),
                                 other => o.fail("tfpf-truncated-log-unclean", format!("after truncating at {off} as told the log does not read cleanly: {:?}", other.map(|(n, _)| n))),
                             }
